@@ -1,0 +1,133 @@
+//! Verification hooks.
+//!
+//! This module only exists when the crate is compiled with
+//! `--cfg futures_intrusive_verif`. It is not part of the public API.
+//! Everything in here is read-only with regard to the state of the
+//! primitives, except for the interleave hook registry.
+
+use core::sync::atomic::{AtomicPtr, Ordering};
+
+pub use crate::intrusive_double_linked_list::{LinkedList, ListNode};
+pub use crate::intrusive_pairing_heap::{HeapNode, PairingHeap};
+
+static INTERLEAVE_HOOK: AtomicPtr<()> = AtomicPtr::new(core::ptr::null_mut());
+
+/// Installs (or removes) a function which gets called at the places where a
+/// primitive has released its internal lock but has not yet finished the
+/// operation (e.g. before calling `wake()` on an extracted `Waker`).
+pub fn set_interleave_hook(hook: Option<fn(u32)>) {
+    INTERLEAVE_HOOK.store(
+        hook.map_or(core::ptr::null_mut(), |f| f as *const () as *mut ()),
+        Ordering::Relaxed,
+    );
+}
+
+/// An interleave point. Does nothing unless a hook is installed.
+#[inline]
+pub(crate) fn point(site: u32) {
+    let hook = INTERLEAVE_HOOK.load(Ordering::Relaxed);
+    if !hook.is_null() {
+        // Safety: The value was stored from a `fn(u32)`
+        let f: fn(u32) = unsafe { core::mem::transmute::<*mut (), fn(u32)>(hook) };
+        f(site);
+    }
+}
+
+/// A snapshot of one wait node (list node or heap node)
+#[derive(Clone, Copy, Debug, Default, PartialEq, Eq)]
+pub struct NodeInfo {
+    /// Address of the previous node (list) / previous sibling (heap). 0 = None
+    pub prev: usize,
+    /// Address of the next node (list) / next sibling (heap). 0 = None
+    pub next: usize,
+    /// Heap only: address of the parent. 0 = None
+    pub parent: usize,
+    /// Heap only: address of the first child. 0 = None
+    pub first_child: usize,
+    /// Poll state, in declaration order of the respective enum
+    pub state: u8,
+    /// Whether a `Waker` is stored
+    pub has_waker: bool,
+    /// The data pointer of the stored `Waker` (0 if none)
+    pub waker_data: usize,
+    /// required permits | requested state id | expiry | 1 if a value is parked
+    pub arg: u64,
+}
+
+/// A snapshot of the scalar state of a primitive
+#[derive(Clone, Copy, Debug, Default, PartialEq, Eq)]
+pub struct PrimInfo {
+    /// Head of the (first) wait queue / root of the heap. 0 = None
+    pub head: usize,
+    /// Tail of the (first) wait queue. 0 = None
+    pub tail: usize,
+    /// mpmc: head of the send queue
+    pub head2: usize,
+    /// mpmc: tail of the send queue
+    pub tail2: usize,
+    /// is_locked | is_set | is_closed | is_fulfilled
+    pub flag: bool,
+    /// Fairness (mutex, semaphore)
+    pub fair: bool,
+    /// permits | buffered items | state id | value present | clock now
+    pub count: u64,
+    /// mpmc: buffer capacity
+    pub cap: u64,
+}
+
+/// What is reported to the visitor of `verif_inspect`
+#[derive(Clone, Copy, Debug)]
+pub enum Visit {
+    /// Scalar state of the primitive. Always reported first.
+    Prim(PrimInfo),
+    /// A node with this address is linked into queue number `.0`.
+    /// Reported *before* the node is dereferenced. If the visitor returns
+    /// `false` the node is not dereferenced and the walk of this queue ends.
+    Addr(u8, usize),
+    /// The content of the node which was announced via `Addr`
+    Node(u8, usize, NodeInfo),
+    /// All queues have been walked. The internal lock is still held while this
+    /// is reported, which allows to inspect not-queued nodes race-free.
+    Done,
+}
+
+/// Walks a list from head to tail
+pub(crate) fn walk_list<T>(
+    list: &LinkedList<T>,
+    queue: u8,
+    visit: &mut dyn FnMut(Visit) -> bool,
+    info: &dyn Fn(&ListNode<T>) -> NodeInfo,
+) {
+    // Safety: The visitor vouches for the liveness of a node before it
+    // gets dereferenced
+    unsafe {
+        list.verif_walk(&mut |addr, node| match node {
+            None => visit(Visit::Addr(queue, addr)),
+            Some(node) => visit(Visit::Node(queue, addr, info(node))),
+        })
+    }
+}
+
+/// Walks a heap depth first
+pub(crate) fn walk_heap<T: Ord>(
+    heap: &PairingHeap<T>,
+    queue: u8,
+    visit: &mut dyn FnMut(Visit) -> bool,
+    info: &dyn Fn(&HeapNode<T>) -> NodeInfo,
+) {
+    // Safety: The visitor vouches for the liveness of a node before it
+    // gets dereferenced
+    unsafe {
+        heap.verif_walk(&mut |addr, node| match node {
+            None => visit(Visit::Addr(queue, addr)),
+            Some(node) => visit(Visit::Node(queue, addr, info(node))),
+        })
+    }
+}
+
+pub(crate) fn waker_data(task: &Option<core::task::Waker>) -> (bool, usize) {
+    match task {
+        Some(w) => (true, w.data() as usize),
+        None => (false, 0),
+    }
+}
